@@ -13,14 +13,15 @@ pub struct Slot(u32);
 // %4 = 2 -> named
 // %4 = 3 -> <unused>
 struct SlotTable {
-    fresh_idx: u32,
+    // the next fresh slot; None if the fresh slots are used up.
+    fresh_idx: Option<u32>,
     named_vec: Vec<String>,
     named_map: HashMap<String, u32>,
 }
 
 thread_local! {
     static SLOT_TABLE: RefCell<SlotTable> = RefCell::new(SlotTable {
-        fresh_idx: 1,
+        fresh_idx: Some(1),
         named_vec: Vec::default(),
         named_map: HashMap::default(),
     });
@@ -32,8 +33,8 @@ impl Slot {
     /// Any slot returned from this function has never been constructed before.
     pub fn fresh() -> Self {
         SLOT_TABLE.with_borrow_mut(|tab| {
-            let old_val = tab.fresh_idx;
-            tab.fresh_idx += 4;
+            let old_val = tab.fresh_idx.expect("out of fresh slots");
+            tab.fresh_idx = old_val.checked_add(4);
             Slot(old_val)
         })
     }
@@ -48,18 +49,23 @@ impl Slot {
         // only the canonical spelling of a number is a numeric slot: "07" and "+7" are names of their own.
         if let Ok(x) = s.parse::<u32>() {
             if x.to_string() == s {
-                return Slot(x * 4); // numeric
+                // numbers that do not fit are ordinary names.
+                if let Some(out) = x.checked_mul(4) {
+                    return Slot(out); // numeric
+                }
             }
         }
 
         SLOT_TABLE.with_borrow_mut(|tab| {
             if s.starts_with("f") {
                 if let Some(x) = s[1..].parse::<u32>().ok().filter(|x| x.to_string() == s[1..]) {
-                    let out = x * 4 + 1;
-                    if tab.fresh_idx <= out {
-                        tab.fresh_idx = out + 4;
+                    // numbers that do not fit are ordinary names.
+                    if let Some(out) = x.checked_mul(4).and_then(|o| o.checked_add(1)) {
+                        if tab.fresh_idx.map_or(false, |f| f <= out) {
+                            tab.fresh_idx = out.checked_add(4);
+                        }
+                        return Slot(out); // fresh
                     }
-                    return Slot(out); // fresh
                 }
             }
 
